@@ -999,8 +999,9 @@ def run(run: core.Run, tier: str):
   run.assumptions += [
       "TF eager elementwise float32 kernels (neg, add, sub, mul) are correctly rounded IEEE operations applied "
       "one at a time (device 1); python float arithmetic is IEEE float64",
-      "rnd32/rnd64 of the model are monotone and fix 0 and 1 (hypotheses NumOK.r64_* of the scheduler theorems; "
-      "true of IEEE round-to-nearest, not proved for the executable definition)",
+      "the executable rnd32/rnd64 are IEEE-754 round-to-nearest-even without overflow handling (proved: monotone on "
+      "the non-negatives, fix 0 and 1 — Lemmas/Rnd.lean; that they ARE the hardware rounding is validated by the "
+      "bit-for-bit tie only)",
       "quantizer objects shared between layers (aliasing) are modelled by value",
       "tf.stop_gradient is the identity on values (gradients are property C06)",
   ]
